@@ -28,6 +28,10 @@ def run(index: RepoIndex, rep) -> None:
     rep.rule('C07.R1', 'frame consistency (C05.R1) for the four headings', floor=9)
     rep.rule('C07.R2', 'the visibility function receives only agent-frame arguments', floor=2)
     rep.rule('C07.R3', 'two-sided padding test on both axes (C05.R2)', floor=3)
+    rep.rule('C07.R4', 'every built-in observation function goes through from_visibility, '
+             'whose observation agent faces FORWARD at the view anchor (C05.R4, C05.R5)', floor=8)
+    c05.wrappers(index, rep, 'C07.R4')
+    c05.agent_rule(index, rep, 'C07.R4', pipe)
     c05.frame_consistency(index, rep, 'C07.R1', geo, pipe, sub)
     c05.padding(index, rep, 'C07.R3', sub)
     call = pipe.vis_calls[0].node
